@@ -130,16 +130,28 @@ namespace
                     switch (k)
                     {
                     case V_PUSH:
+                    case V_EMPLACE_BACK:
                     {
                         E e(val);
-                        x.push_back(e);
-                        mx.push_back(val);
+                        // fault: the element's constructor throws while it is being appended - the vector must be unchanged
+                        // (appending is the one place where the current code gives that guarantee; no other exception safety is demanded)
+                        bool boom = std::is_same<E, tracked::T>::value && mod(arg(o, 3), 9) == 0;
+                        bool thrown = false;
+                        if (boom) tracked::reg().throw_after = 1;
+                        try
+                        {
+                            if (k == V_PUSH) x.push_back(e);
+                            else x.emplace_back(val);
+                        }
+                        catch (const tracked::Boom &)
+                        {
+                            thrown = true;
+                            probe("append_with_throwing_constructor");
+                        }
+                        tracked::reg().throw_after = 0;
+                        if (!thrown) mx.push_back(val);
                         break;
                     }
-                    case V_EMPLACE_BACK:
-                        x.emplace_back(val);
-                        mx.push_back(val);
-                        break;
                     case V_INSERT:
                     case V_EMPLACE:
                     case V_INSERT_INT:
